@@ -5,8 +5,15 @@
 //! trusted: R15 (deep slice): the per-HTLC block of the revoked-commitment branch of check_spend_counterparty_transaction verbatim (consistency test, RevokedHTLCOutput::build, deadline choice, build_package, push); RevokedHTLCOutput::build and PackageTemplate::build_package are external_body constructors recording their arguments; keys, txid, amounts are opaque identities; the early `return` of the enclosing function becomes `return false`; and likewise the per-output block of the loop that finds the cheater's own (revokeable) balance output; `idx.try_into().expect(..)` is the external_body wrapper usize_to_u32 (R8); key derivation, the script construction and fail_unbroadcast_htlcs! are dropped and not claimed
 //! plemma: C06 lemma_commitment_number_roundtrip: decode(sequence(n, f), locktime(n, f), f) == n for all n < 2^48 and f < 2^48 (bit-vector proof over the extracted expressions' contracts)
 //! assume: commitment numbers and the obscuring factor are < 2^48 (INITIAL_COMMITMENT_NUMBER = 2^48 - 1; the monitor asserts factor <= 2^48 at construction)
+//! trusted: assume_specification for core::cmp::max / core::cmp::min (std definitions): present in every unit so that a change that introduces them is verified instead of being rejected by the tool
 use vstd::prelude::*;
 verus! {
+use vstd::std_specs::cmp::*;
+use core::cmp;
+pub assume_specification<T: core::cmp::Ord>[core::cmp::max::<T>](a: T, b: T) -> (r: T)
+    ensures T::obeys_cmp_spec() ==> r == (if b.cmp_spec(&a) == core::cmp::Ordering::Less { a } else { b });
+pub assume_specification<T: core::cmp::Ord>[core::cmp::min::<T>](a: T, b: T) -> (r: T)
+    ensures T::obeys_cmp_spec() ==> r == (if b.cmp_spec(&a) == core::cmp::Ordering::Less { b } else { a });
 //@extract lightning/src/ln/channel.rs :: const INITIAL_COMMITMENT_NUMBER
 //@fold
 //@end
